@@ -684,8 +684,77 @@ pub const NESTS: [Nest; 4] =
 
 /// Known-finding classification (DESIGN §7 D3): the stream has a `Hook::Failed`
 /// and the only deviation is in the scenario classes.
-pub fn explain(stream: &[Ev], verdicts: &[Verdict], obs: &Observed) -> Option<&'static str> {
+/// The scenario classification *with the recorded defects left in*: the
+/// reference recomputed with exactly the rules of the known findings changed
+/// (a `Hook::Failed` is classified without looking at the retry counter; a
+/// `Retried` mark is only cleared by the scenario's own last step passing and
+/// shadows later hook failures). A deviation is attributed to a known finding
+/// only if the observed classes equal this model, so any *other* change of the
+/// classification is still a violation.
+pub fn known_defect_model(stream: &[Ev], last_own_step: &BTreeMap<String, Option<String>>) -> (usize, usize, usize, usize) {
+    #[derive(Clone, Copy, PartialEq)]
+    enum Ind {
+        Failed,
+        Skipped,
+        Retried,
+    }
+    let mut ind: BTreeMap<String, Ind> = BTreeMap::new();
+    let (mut passed, mut skipped, mut failed, mut retried) = (0usize, 0usize, 0usize, 0usize);
+    for e in stream {
+        let Ev::Sc { s, retries, ev, .. } = e else { continue };
+        match ev {
+            ScEv::Step(bg, text, _, StepEv::Passed) => {
+                if !*bg && last_own_step.get(s).and_then(|x| x.as_ref()) == Some(text) {
+                    ind.remove(s);
+                }
+            }
+            ScEv::Step(_, _, _, StepEv::Skipped) => {
+                skipped += 1;
+                ind.insert(s.clone(), Ind::Skipped);
+            }
+            ScEv::Step(_, _, _, StepEv::Failed(kind, _)) => {
+                if retries.is_some_and(|(_, left)| left > 0) && kind != "NotFound" {
+                    if ind.insert(s.clone(), Ind::Retried).is_none() {
+                        retried += 1;
+                    }
+                } else {
+                    failed += 1;
+                    ind.insert(s.clone(), Ind::Failed);
+                }
+            }
+            ScEv::Hook(_, HookEv::Failed(..)) => match ind.get(s) {
+                Some(Ind::Failed | Ind::Retried) => {}
+                Some(Ind::Skipped) => {
+                    skipped -= 1;
+                    failed += 1;
+                }
+                None => {
+                    failed += 1;
+                    ind.insert(s.clone(), Ind::Failed);
+                }
+            },
+            ScEv::Finished => {
+                let is_retried = ind.get(s) == Some(&Ind::Retried);
+                if !is_retried && ind.remove(s).is_none() {
+                    passed += 1;
+                }
+            }
+            _ => {}
+        }
+    }
+    (passed, skipped, failed, retried)
+}
+
+pub fn explain(
+    stream: &[Ev],
+    verdicts: &[Verdict],
+    obs: &Observed,
+    last_own_step: &BTreeMap<String, Option<String>>,
+) -> Option<&'static str> {
     if verdicts.iter().any(|v| v.key != "scenario-classes") {
+        return None;
+    }
+    if obs.sc != known_defect_model(stream, last_own_step) {
         return None;
     }
     {
@@ -819,7 +888,12 @@ pub fn run(a: &ShardArgs) -> serde_json::Value {
                 nontrivial.insert(h);
             }
             if !vs.is_empty() {
-                let finding = explain(&stream, &vs, &obs);
+                let last_own: BTreeMap<String, Option<String>> = cfg
+                    .scen_infos()
+                    .iter()
+                    .map(|i| (i.name.clone(), i.calls.iter().rev().find(|c| !c.is_bg).map(|c| c.text.clone())))
+                    .collect();
+                let finding = explain(&stream, &vs, &obs, &last_own);
                 if let Some(f) = finding {
                     *known.entry(f.to_owned()).or_default() += 1;
                 }
